@@ -30,6 +30,7 @@ def run(tier: str, seed: int, rep: Report, model: Model) -> dict:
     n = depth(tier, 1000, 40000)
     rep.rule = ("contexts whose parameters / return are mostly tuple hints of length 1-3 with plain positions mixed in; conforming or one "
                 "fault; distinct = distinct case; non-trivial = some tuple hint has an annotated element at index > 0 or has length 1")
+    rep.rule += '; plus tuples of another length than their hint (must not be accepted)'
     cases = corpus()
     for _ in range(n):
         base = GC.gen_case(rnd, tuples=0.75, plain=0.05, optionals=0.1, with_ret=0.6)
